@@ -67,7 +67,7 @@ class Work:
             shutil.rmtree(self.dir, ignore_errors=True)
 
     # ---- Go harness --------------------------------------------------------
-    def build(self):
+    def build(self, race=False):
         t = time.time()
         ov = {"Replace": {}}
         for f in glob.glob(os.path.join(VERIF, "harness/sys/*.go")):
@@ -78,15 +78,20 @@ class Work:
             ov["Replace"]["%s/%s/zz_verif_shim.go" % (REPO, sub[pkg])] = f
         with open(self.path("overlay.json"), "w") as fh:
             json.dump(ov, fh)
-        self.bin = self.path("harness.test")
-        p = subprocess.run(["go", "test", "-tags", "verif", "-overlay", self.path("overlay.json"), "-vet=off", "-c", "-o", self.bin,
-                            "./internal/zz_verif/"], cwd=REPO, env=goenv(), capture_output=True, text=True, timeout=900)
+        target = self.path("harness-race.test" if race else "harness.test")
+        p = subprocess.run(["go", "test", "-tags", "verif", "-overlay", self.path("overlay.json"), "-vet=off", "-c", "-o", target] +
+                           (["-race"] if race else []) + ["./internal/zz_verif/"], cwd=REPO, env=goenv(), capture_output=True, text=True, timeout=1500)
         if p.returncode != 0:
             raise Infra("harness build failed:\n" + p.stdout[-3000:] + p.stderr[-3000:])
-        log("[build] harness built from %s working tree in %.1fs" % (REPO, time.time() - t))
+        if race:
+            self.bin_race = target
+        else:
+            self.bin = target
+        log("[build] harness%s built from %s working tree in %.1fs" % (" (race detector on)" if race else "", REPO, time.time() - t))
 
-    def drive(self, test, scenarios, name, env_extra=None, timeout=1800):
-        """Run a driver test of the harness binary over a scenario file; returns the trace path."""
+    def drive(self, test, scenarios, name, env_extra=None, timeout=1800, race=False):
+        """Run a driver test of the harness binary over a scenario file; returns the trace path (race=True: the race-detector
+        build; returns (trace path, exit code, output) and leaves the judgement of a dying driver to the caller)."""
         inp, out = self.path(name + ".scn.ndjson"), self.path(name + ".trace.ndjson")
         with open(inp, "w") as fh:
             for s in scenarios:
@@ -98,10 +103,13 @@ class Work:
             env.update(env_extra)
         t = time.time()
         try:
-            p = subprocess.run([self.bin, "-test.run", "^" + test + "$", "-test.timeout", "%ds" % timeout], env=env,
+            p = subprocess.run([self.bin_race if race else self.bin, "-test.run", "^" + test + "$", "-test.timeout", "%ds" % timeout], env=env,
                                capture_output=True, text=True, timeout=timeout + 30, cwd=tmp)
         except subprocess.TimeoutExpired:
             raise Infra("driver %s timed out" % test)
+        if race:
+            log("[drive] %s: %d scenarios executed against the real code (race detector on) in %.1fs, exit %d" % (name, len(scenarios), time.time() - t, p.returncode))
+            return out, p.returncode, p.stdout + p.stderr
         if p.returncode != 0:
             raise Infra("driver %s failed (exit %d):\n%s\n%s" % (test, p.returncode, p.stdout[-4000:], p.stderr[-4000:]))
         log("[drive] %s: %d scenarios executed against the real code in %.1fs" % (name, len(scenarios), time.time() - t))
